@@ -215,8 +215,9 @@ struct FsFault
     // fail the n-th (0-based) call of `call` seen since fs_arm with `err`; -1 = none
     int call = -1; // FS_* below
     int nth = 0;
-    int err = 0;
+    int err = 0; // errno; | FS_ERR_STICKY: every later call that would create the same destination fails too
 };
+constexpr int FS_ERR_STICKY = 0x10000;
 enum FsCall : int { FS_OPEN_CREATE = 0, FS_RENAMEAT2, FS_RENAME, FS_LINK, FS_UNLINK, FS_WRITE, FS_OPEN_ANY, FS_NCALLS };
 const char *fs_call_name(int c);
 
